@@ -338,3 +338,45 @@ func ruleNoSharedLuaObjects(c *Ctx) {
 	}
 	c.okT(R, "shared-lua-objects", "-", fmt.Sprintf("%d run-time reads of package-level Lua objects examined", n))
 }
+
+// ruleHiddenVariablesCoverTheIteratorCall: F139. C17 "debug.getlocal … exactly the named variables in
+// scope at the queried point": TFORLOOP is the instruction that calls the iterator, and the loop's hidden
+// variables are in scope there (the reference reports them): in compileGenericForStmt the TFORLOOP is
+// emitted while exactly one block opened by the function is still open — the hidden variables' — the
+// loop variables' block (the body) having been left.
+func ruleHiddenVariablesCoverTheIteratorCall(c *Ctx) {
+	const R = "R17-scope"
+	p := c.P
+	fn := c.need(R, "lua", "compileGenericForStmt")
+	enter := p.Fn("lua", "(*funcContext).EnterBlock")
+	leave := p.Fn("lua", "(*funcContext).LeaveBlock")
+	addABC := p.Fn("lua", "(*codeStore).AddABC")
+	t := p.vmTable()
+	if fn == nil || enter == nil || leave == nil || addABC == nil || t.ByName["OP_TFORLOOP"] == nil {
+		return
+	}
+	g := p.G(fn)
+	op := int64(t.ByName["OP_TFORLOOP"].Val)
+	found, okc := false, false
+	for _, cl := range callsTo(fn, addABC) {
+		if k, ok := constInt(cl.Call.Args[1]); !ok || k != op {
+			continue
+		}
+		found = true
+		d := 0
+		for _, e := range callsTo(fn, enter) {
+			if g.Dominates(e, cl) {
+				d++
+			}
+		}
+		for _, l := range callsTo(fn, leave) {
+			if g.Dominates(l, cl) {
+				d--
+			}
+		}
+		okc = d == 1
+	}
+	c.Sites++
+	c.check(found && okc, R, "compileGenericForStmt:hidden-variables-in-scope-at-TFORLOOP", p.pos(fn.Pos()), "TFORLOOP is emitted inside the hidden variables' block, after the body's block was left",
+		"compileGenericForStmt emits TFORLOOP after every block it opened has been left: the loop's hidden variables are out of scope at the instruction that calls the iterator — debug.getlocal(2, n) from the iterator sees three temporaries where the reference names (for generator), (for state), (for control)")
+}
